@@ -4,7 +4,7 @@ import os
 import sys
 import traceback
 
-from . import runner
+from . import runner, facts
 
 PROPS = {
     "C01": ("c01", "other"),
@@ -15,12 +15,15 @@ PROPS = {
     "C06": ("c06", "other"),
     "C07": ("c07", "other"),
     "C14": ("c14", "other"),
+    "C16": ("c16", "other"),
     "C17": ("c17", "other"),
     "C18": ("c18", "other"),
     "C19": ("c19", "other"),
+    "C20": ("c20", "other"),
     "C08": ("c08", "other"),
     "C09": ("c09", "other"),
     "C10": ("c10", "other"),
+    "C11": ("c11", "other"),
     "C12": ("c12_c13", "translation_validation"),
     "C13": ("c12_c13", "translation_validation"),
 }
@@ -41,6 +44,10 @@ def main():
     try:
         mod = importlib.import_module("ptlint.rules." + modname)
         mod.run(ctx)
+    except facts.BuildFailed as e:
+        r = ctx.rule("BUILD", "the unit under analysis type-checks")
+        first = [l for l in e.out.splitlines() if l.startswith("error")][:3]
+        r.violations.append(runner.Violation("BUILD", "BUILD:%s" % e.unit, "facts unit `%s` does not compile on the current tree: %s" % (e.unit, " | ".join(first)), None, e.out[-1500:]))
     except Exception as e:  # fail closed: a crash of the checker is not a pass
         traceback.print_exc()
         r = ctx.rule("INTERNAL", "checker error")
